@@ -3,12 +3,10 @@
 import json
 
 NA = {
-    "C02": "span validity/nesting/order/UTF-8 alignment are numeric facts about ~40 loop-computed offsets; a sound static argument needs relational numeric invariants over arrays of spans, which no installed tool provides (DESIGN.md §3 C02)",
     "C03": "byte coverage by leaves is a sum over data-dependent span endpoints and line jumps; no shape-level necessary condition that the pinned suite does not already kill (DESIGN.md §3 C03)",
     "C06": "CommonMark conformance is an input-text→output-text relation through the whole block and inline algorithms; only an executable reference could judge it, which is a different technique (DESIGN.md §3 C06)",
     "C09": "metamorphic relation between the parses of two different texts; nothing in the shape of the code is equivalent to it (DESIGN.md §3 C09)",
     "C13": "per-construct span shape is pure offset arithmetic per construct (see C02) (DESIGN.md §3 C13)",
-    "C16": "equality of a block's parse in and out of context depends on every block rule's end-of-input behaviour; behavioural, no structural necessary condition found (DESIGN.md §3 C16)",
 }
 
 # id -> (claimed?, technique, level text, level note)
@@ -16,6 +14,9 @@ CHECKS = {
     "C01": (True, "SSA constructor-agreement, aliasing/provenance, cursor-pairing and buffer-ownership rules (CTOR, CLAMP, RET-SELF, ALIAS, CURSOR-PAIR, PROV through helper parameters, BUF-FORWARD, PAD-START, LINE-COMPLETE, LINECOUNT-STEP, WS-SPEC)",
             "Necessary structural conditions of lossless tiling: the in-memory constructor initialises the same machine as the streaming one, Source aliases the caller's buffer through a capacity-clamped slice, every prefix cut of the buffer is paired with offset/line/index updates, offset/line addends derive from unpaddedNullLength/lineCount of the prefix cut (also through helper parameters), the buffer only moves forward or to a fresh allocation (so returned Source slices are never overwritten), padNulls examines only newly read bytes, lineCount's per-byte step (or closed form) counts LF, CR and CRLF once each, a line is complete only behind an LF, an available look-ahead byte or end of input, and no Unicode-white-space function is applied to document text. Does not decide range ordering or the arithmetic inside the helpers.",
             "go/types + go/ssa; field-based origin abstraction; helper arithmetic trusted"),
+    "C02": (True, "SSA provenance rule on the root-block cut (ROOT-CUT) and completeness/delta rules on the re-basing of carried-over blocks (REBASE, with BSET path-conditioning on node kinds)",
+            "Two necessary conditions only: a root block's Source is cut exactly at the end of the span of the block it carries (so the root span ends at len(Source)), and blocks carried over to the next call have the Start and End of every block and inline span shifted, for nodes of every kind, by minus the length that was cut. Validity, nesting, sibling order and character alignment of all other spans are arithmetic over loop-computed offsets and are not decided.",
+            "go/ssa def-use; access paths compared structurally (go/ssa has no CSE)"),
     "C04": (True, "SSA latch/provenance proof that Parse's panic is unreachable (interprocedural latch dataflow), definite-divergence and reader-exit loop rules, relative-advance and index-guard rules, finite-domain unreachability, lineParser typestate, child-arity backing",
             "Structural parts of totality: Parse cannot reach panic(err) (latch + provenance), errors returned by Render/Format/NextBlock originate from the reader/writer, no loop has a state-preserving cycle (LOOP-D) or an end-of-input-blind reader cycle (LOOP-N), hand-advanced scan indices only move relative to themselves (ADVANCE-REL), cursor and look-ahead reads are dominated by a bound on that index (INDEX-GUARD), explicit unreachable-defaults are unreachable over finite domains, lineParser API state guards cannot fire from any block rule, positional child accesses are backed by producer guarantees. Implicit bounds/nil panics and progress-making loop termination are not decided.",
             "go/ssa CFG and dominators; BSET finite-domain propagation; idempotent reader methods list"),
@@ -43,6 +44,9 @@ CHECKS = {
     "C15": (True, "exact accept sets of byte/rune classifiers by finite-domain set propagation over SSA (BSET), compared with sets transcribed from CommonMark 0.30 / RFC 3986; numeric limits of the recognisers (SPEC-BOUNDS, loop counters by iteration count); full-span scans (SPAN-SCAN)",
             "For each of the 9 byte/rune classifiers and 2 byte maps the exact accept set / mapping over all 256 bytes resp. all 1,114,112 code points equals the spec's definition; NormalizeURI's constant safe set is within RFC 3986 reserved ∪ unreserved and every byte it writes is '%', a urlHexDigit result or a rune guarded by the safe-set test. The numeric limits of the recognisers equal the specification's numbers and span-validating loops cover the whole span; the recognisers' languages, the e-mail recogniser and URI idempotence are loop automata and are not decided.",
             "go/ssa; Unicode tables of the Go standard library; oracle sets transcribed in checker/c15.go"),
+    "C16": (True, "who-may-store rules: no store into InlineParser fields after construction (INLINE-STATELESS), inline-phase working types are scratch in the write-effect analysis and line-parser pointers never leave locals (PHASE-SCRATCH)",
+            "Necessary condition only: no hidden state survives a root-block boundary — the inline parser remembers nothing between Rewrite calls and the per-line / per-paragraph working state never outlives the call that made it, so what a block is parsed with is its own text, the reference matcher and the BlockParser's cursor fields. That closing a block at end of input equals closing it because of the next line (per block rule) is behavioural and not decided.",
+            "EFF scratch-type computation; go/ssa stores"),
     "C17": (True, "who-may-emit-markup rule over all appends (HTX-EMIT), filterRaw provenance over its helper family, transition-table extraction of its skip states (FR-AUTOMATON), tag-open set and first-'>' jump target (FR-TAGSKIP), tag-name terminator set (TAGNAME-SET), lower-casing, transient-name and nil-filter rules, BSET superset check of the GFM predicate",
             "Emitter-side clauses: every tag the renderer itself writes goes through the FilterTag-consulting emitters, filterRaw appends only sub-slices of its input or the constant &lt;, FilterTag arguments are lower-cased names, FilterTagGFM rejects at least the nine GFM raw-text elements, no filtering branch is taken with a nil predicate, and filterRaw's scanner never skips further than an HTML tokenizer would: skip states end at the tokenizer's construct ends, a jump over a tag starts only at a byte that opens markup and lands on the first '>', the measured tag name stops at every tokenizer terminator, and the lower-cased name is never kept. Equality of the two languages beyond that is not decided.",
             "go/ssa; atom table of golang.org/x/net/html/atom read as data"),
